@@ -5,6 +5,9 @@ from vlib import tlc, tlaval, gorun, core
 PROPS = ['C20']
 INSTR = {"files": {"stream.go": {"funcs": ["Stream.fillDataToReadBuffer", "Stream.Close", "Stream.close", "Stream.halfClose",
                                            "Stream.getStreamState"], "noLock": []}}}
+# finer instrumentation for the random real interleavings: the lock of pendingData is a scheduling point too, so that
+# "flag read / data added" orderings inside fillDataToReadBuffer and the goroutine's exit re-check can be separated
+INSTR_FINE = {"files": {"stream.go": {"funcs": INSTR["files"]["stream.go"]["funcs"] + ["pendingData.add", "pendingData.moveTo", "pendingData.clear"]}}}
 HARNESS = ['zz_vs_sched.go', 'zz_freelist_test.go', 'zz_pair_test.go', 'zz_session_test.go', 'zz_callback_test.go']
 SLUGS = ['peer-close-before-offer', 'close-during-callback']
 INVS = 'Serial NoDupOffer OrderOffer NoStranding PeerLearns CallbackOnce'
@@ -56,8 +59,8 @@ def wit_steps(lst):
     return out
 
 
-def harness(ck, job):
-    g = gorun.run_harness('^TestVS_Callback$', HARNESS, INSTR, inputs={'job': job}, timeout=2400)
+def harness(ck, job, instr=None):
+    g = gorun.run_harness('^TestVS_Callback$', HARNESS, instr or INSTR, inputs={'job': job}, timeout=2400)
     if g.result is None:
         ck.inconc('harness produced no result (rc=%d): %s' % (g.rc, g.out[-1500:]))
         return None
@@ -69,6 +72,7 @@ def report(ck, prop, r):
         if v['property'] == prop:
             ck.violation('%s (%s, events=%s userClose=%s closeInOnData=%s): %s' % (v['kind'], v['schedule'], v['events'], v['userclose'], v['inondata'], v['detail']),
                          {'kind': 'schedule', 'events': v['events'], 'userclose': v['userclose'], 'inondata': v['inondata'],
+                          'fine': v['schedule'].startswith('random'),
                           'steps': [[s['a'], s['c'], s['g']] for s in v['steps']], 'detail': v['detail']})
         else:
             ck.notes.append("also saw a %s violation (%s: %s)" % (v['property'], v['kind'], v['detail'][:100]))
@@ -169,6 +173,14 @@ def run(prop, tier, seed, replay=None, ck=None, finish=True):
         elif wp == prop:
             ck.violation('%s: %s' % (slug, v['detail']), {'kind': 'schedule', 'events': v['events'], 'userclose': v['userclose'],
                                                            'inondata': v['inondata'], 'steps': [[s['a'], s['c'], s['g']] for s in v['steps']]})
+    # random interleavings with the finer instrumentation (oracles only)
+    if not ck.violations:
+        fjob = {'schedules': [], 'known': listed, 'random': {'n': 300 if tier == 'quick' else 6000, 'seed': ck.seed + 1000}}
+        fr = harness(ck, fjob, INSTR_FINE)
+        if fr is not None:
+            report(ck, prop, fr)
+            ck.cov['random_interleavings_fine_grained'] = fr['random_runs']
+            ck.cov['random_fine_steps'] = fr['random_steps']
     ck.add('traces_validated_against_impl', r['conforming'])
     ck.cov['replayed_behaviours'] = r['replayed']
     ck.cov['replay_steps'] = r['steps']
